@@ -29,7 +29,7 @@ pub fn th_write(_h: &mut std::hash::DefaultHasher, bytes: &[u8]) {
     unsafe {
         let mut i = 0;
         while i < bytes.len() {
-            TH_ACC = TH_ACC.wrapping_mul(1099511628211).wrapping_add(bytes[i] as u64 + 1);
+            TH_ACC = TH_ACC.rotate_left(5) ^ (bytes[i] as u64 + 1); // cheap for SAT (no multiplication); exact questions use the stream log
             if TH_N < TH_CAP { TH_CUR[TH_N] = bytes[i]; }
             TH_N += 1;
             i += 1;
